@@ -90,6 +90,15 @@ def cases_module(cases):
     return "---- MODULE SizerCases ----\nEXTENDS Integers\nCases == <<\n%s\n>>\n====\n" % ",\n".join(case_tla(c) for c in cases)
 
 
+import pandas as _pd
+SIZING_DT = _pd.Timestamp("2020-01-03 21:00:00", tz="UTC")
+
+
+def _at(dt):
+    """1 at the sizing instant (in whatever zone it is written), 3 at any other."""
+    return 1.0 if dt == SIZING_DT else 3.0
+
+
 class _Broker(object):
     def __init__(self, equity, fee):
         from qstrader.broker.fee_model.percent_fee_model import PercentFeeModel
@@ -98,6 +107,12 @@ class _Broker(object):
         f = float(Fraction(fee))
         # the total rate is split between commission and tax so that both parts are exercised
         self.fee_model = ZeroFeeModel() if f == 0.0 else PercentFeeModel(commission_pct=f / 2.0, tax_pct=f / 2.0)
+
+        # the broker's own clock stands one day BEFORE the instant the sizer is asked about (a hand-assembled pipeline
+        # may size ahead of the broker's clock); every price source below quotes three times as much at any instant
+        # other than the one asked about
+        import pandas as pd
+        self.current_dt = SIZING_DT - pd.Timedelta(days=1)
 
     def get_portfolio_total_equity(self, pid):
         assert pid == "pf"
@@ -109,10 +124,10 @@ class _Handler(object):
         self.prices = prices
 
     def get_asset_latest_ask_price(self, dt, asset):
-        return self.prices[asset]
+        return self.prices[asset] * _at(dt)
 
     def get_asset_latest_bid_price(self, dt, asset):      # a sizer that reads the bid gets a different number
-        return self.prices[asset] * 0.5
+        return self.prices[asset] * 0.5 * _at(dt)
 
 
 class _Source(object):
@@ -121,10 +136,10 @@ class _Source(object):
         self.prices, self.factor = prices, factor
 
     def get_bid(self, dt, asset):
-        return self.prices[asset] * 0.5 * self.factor
+        return self.prices[asset] * 0.5 * self.factor * _at(dt)
 
     def get_ask(self, dt, asset):
-        return self.prices[asset] * self.factor
+        return self.prices[asset] * self.factor * _at(dt)
 
 
 def _real_handler(prices):
@@ -153,7 +168,7 @@ def call_real(c, pool=None):
     assets = ASSETS[:n]
     prices = dict((a, float("nan") if p == "nan" else float(Fraction(p))) for a, p in zip(assets, c["px"]))
     weights = dict((a, (w / float(c["wdiv"])) if c["wdiv"] != 1 else float(w)) for a, w in zip(assets, c["w"]))
-    dt = pd.Timestamp("2020-01-03 21:00:00", tz="UTC")
+    dt = SIZING_DT
     try:
         key = (c["kind"], c["par"])
         if pool is not None and key in pool:
